@@ -217,9 +217,14 @@ def one_job(pid, tier, seed, job, bins, only=None):
                 f.writelines(lines[(seed % step)::step])
         cmd = binp + ["replay", "--table", ptable, "--mode", consts["Mode"], "--edges", "--out", rep_path, "--progress", prog,
                "--walks", str(0 if prof == "miri" else job.get("walks", 20)), "--steps", str(job.get("steps", 500)), "--seed", str(seed)]
-        if pair:
+        if pair and job.get("sweep"):
+            cmd = binp + ["pairsweep", "--table", ptable, "--adv", "1" if job["sweep"] == "adversarial" else "0", "--out", rep_path, "--progress", prog,
+                          "--max-leaves", str(job.get("max_leaves", 128))]
+        elif pair:
             cmd = binp + ["pairs", "--table", ptable, "--mode", consts["Mode"], "--out", rep_path, "--progress", prog]
-        if micro:
+        if pair:
+            pass
+        elif micro:
             cmd = binp + ["micro", "--table", ptable, "--mode", consts["Mode"], "--adv", "1" if consts["Adv"] else "0", "--out", rep_path, "--progress", prog]
         elif job.get("sweep"):
             cmd = binp + [job["sweep"], "--table", ptable, "--mode", consts["Mode"], "--out", rep_path, "--progress", prog,
@@ -577,11 +582,13 @@ def jobs_for(pid, tier):
         "C04": micro_inject + [dict(j, sweep="inject") for j in
                 both("core", ["core"]) + both("cef", ["cursor", "entry", "fmt", "unchecked"], consts={"Vers": [0]})
                 + both("bulkclone", ["bulk", "clone"], bigconsts={"MaxExtra": 1, "Vers": [0]})
-                + setcore + both("setbc", ["bulk", "clone"], mode="set", consts={"MaxExtra": 1}, bigconsts={"Vers": [0]})],
+                + setcore + both("setbc", ["bulk", "clone"], mode="set", consts={"MaxExtra": 1}, bigconsts={"Vers": [0]})]
+               + [dict(j, sweep="inject") for j in pairs("algsweep", ["algebra", "eq"], "set", qcaps[:2] if q else tcaps[:6])],
         "C17": prof(micro_adv, "asan", "miri") + prof([dict(j, sweep="adversarial", max_leaves=(256 if q else 4096)) for j in
                 both("core", ["core"], consts={"Vers": [0]}) + both("ed", ["entry", "disjoint"], consts={"Vers": [0], "Vals": [0]}, bigconsts={"MaxKs": 3})
                 + both("bulkclone", ["bulk", "clone"], consts={"Vers": [0], "Vals": [0], "MaxExtra": 1})
-                + both("setcore", ["core"], mode="set", consts={"Vers": [0]}) + both("setbc", ["bulk"], mode="set", consts={"MaxExtra": 1, "Vers": [0]})], "asan"),
+                + both("setcore", ["core"], mode="set", consts={"Vers": [0]}) + both("setbc", ["bulk"], mode="set", consts={"MaxExtra": 1, "Vers": [0]})]
+                    + [dict(j, sweep="adversarial", max_leaves=(64 if q else 512)) for j in pairs("algadv", ["algebra", "eq"], "set", qcaps[:2] if q else tcaps[:6])], "asan"),
         "C05": core + both("ecub", ["entry", "cursor", "unchecked", "bulk"], consts={"Vers": [0]}, bigconsts={"MaxExtra": 1}) + setcore
                + both("setbulk", ["bulk"], mode="set", consts={"MaxExtra": 1}, bigconsts={"Vers": [0]}) + tmap + tset,
         "C02": core + prof(both("cursor", ["cursor"]), "miri") + both("eubc", ["entry", "unchecked", "bulk", "clone"], consts={"Vers": [0]}, bigconsts={"MaxExtra": 1})
